@@ -128,8 +128,10 @@ def run(prog: Program, ctx: Ctx) -> None:  # noqa: PLR0912,PLR0915
             ok = any(isinstance(e, ast.Constant) and e.value in ("-l", "--list") for e in operands)
             why = "git tag without -l would create a tag" if not ok else why
         if words == ("branch",):
-            ok = any(isinstance(e, ast.Constant) and e.value in ("-D", "-d", "--delete") for e in operands)
-            why = "git branch without -D/-d would create/rename a branch" if not ok else why
+            consts = [e.value for e in operands if isinstance(e, ast.Constant)]
+            ok = "-D" in consts or ("--force" in consts and ("--delete" in consts or "-d" in consts)) or ("-f" in consts and "-d" in consts)
+            why = ("git branch must be a forced delete (-D): without a delete flag it creates a branch, and a plain -d is refused for a ref "
+                   "that is not merged into HEAD (silently, with check=False), leaving the temporary branch behind") if not ok else why
             if ok:
                 releases.setdefault("branch -D", []).append((fn, call, operands, repo))
         if words == ("worktree", "add"):
